@@ -403,6 +403,17 @@ func (bc *boundsCtx) lenLB(x ssa.Value, b *ssa.BasicBlock) int64 {
 			}
 		}
 		if seq == nil || !bc.sameSeq(seq, x) {
+			// a value known to be a valid index of x (e.g. the non-negative result of an index-of helper) and >= c
+			if bc.depth < 7 {
+				for _, side := range []ssa.Value{bin.X, bin.Y} {
+					if _, isConst := side.(*ssa.Const); isConst || lenArg(side) != nil {
+						continue
+					}
+					if r := bc.rng(side, b); r.ltLenOf != nil && r.lo >= 0 && bc.sameSeq(r.ltLenOf, x) {
+						up(r.lo + 1)
+					}
+				}
+			}
 			// also: i < len(x) with i >= 0 known  => len(x) >= 1
 			if bin.Op == token.LSS && l.Pol {
 				if la := lenArg(bin.Y); la != nil && bc.sameSeq(la, x) {
@@ -513,6 +524,21 @@ func (bc *boundsCtx) rng(v ssa.Value, b *ssa.BasicBlock) irange {
 		if la := lenArg(x); la != nil {
 			r.lo = bc.lenLB(la, b)
 			r.lenOf, r.lenMinus = la, 0
+		}
+		// a repository helper returning an index: the interval of its returns, and "result < len(parameter)" when every
+		// return is negative or an index proved below the length of that same parameter (an index-of function)
+		if h := bc.w.helperOf(x); h != nil && h.Signature.Results().Len() == 1 && len(h.Blocks) > 0 && bc.depth < 9 {
+			if sum := bc.w.indexSummary(h); sum != nil {
+				if sum.lo > r.lo {
+					r.lo = sum.lo
+				}
+				if sum.hi < r.hi {
+					r.hi = sum.hi
+				}
+				if sum.ltLenParam >= 0 && sum.ltLenParam < len(x.Call.Args) {
+					r.ltLenOf = x.Call.Args[sum.ltLenParam]
+				}
+			}
 		}
 		switch calleeName(x) {
 		case "strings.Index", "strings.IndexByte", "bytes.Index", "bytes.IndexByte", "strings.LastIndex":
@@ -674,6 +700,35 @@ func (bc *boundsCtx) rng(v ssa.Value, b *ssa.BasicBlock) irange {
 			r.ltLenOf = la
 		} else if la := lenArg(other); la != nil && op == token.LEQ {
 			r.leLenOf = la
+		} else if bc.depth < 6 {
+			// compared with another computed value: its interval and its relation to a length carry over
+			ro := bc.rng(other, b)
+			switch op {
+			case token.LSS:
+				if ro.hi != posInf && ro.hi-1 < r.hi {
+					r.hi = ro.hi - 1
+				}
+				if ro.lenOf != nil && ro.lenMinus >= 0 {
+					r.ltLenOf = ro.lenOf
+				}
+			case token.LEQ:
+				if ro.hi != posInf && ro.hi < r.hi {
+					r.hi = ro.hi
+				}
+				if ro.lenOf != nil && ro.lenMinus >= 1 {
+					r.ltLenOf = ro.lenOf
+				} else if ro.lenOf != nil && ro.lenMinus == 0 {
+					r.leLenOf = ro.lenOf
+				}
+			case token.GTR:
+				if ro.lo != negInf && ro.lo+1 > r.lo {
+					r.lo = ro.lo + 1
+				}
+			case token.GEQ:
+				if ro.lo != negInf && ro.lo > r.lo {
+					r.lo = ro.lo
+				}
+			}
 		}
 	}
 	return r
@@ -867,7 +922,7 @@ func (bc *boundsCtx) checkIndex(ins ssa.Instruction, x, idx ssa.Value, b *ssa.Ba
 		s.OK, s.Why = true, fmt.Sprintf("index <= %d < len >= %d", r.hi, lb)
 		return s
 	}
-	if r.lenOf != nil && bc.sameSeq(r.lenOf, x) && r.lenMinus >= 1 && lb >= r.lenMinus {
+	if r.lenOf != nil && bc.sameSeq(r.lenOf, x) && r.lenMinus >= 1 && (lb >= r.lenMinus || r.lo >= 0) {
 		s.OK, s.Why = true, fmt.Sprintf("index = len-%d with len >= %d", r.lenMinus, lb)
 		return s
 	}
@@ -1180,3 +1235,63 @@ func reportSites(c *Ctx, rule string, sites []panicSite) (n int) {
 }
 
 var _ = strings.Contains
+
+// idxSummary: what is known of the integer a helper returns.
+type idxSummary struct {
+	lo, hi     int64
+	ltLenParam int // index of the parameter whose length every non-negative return is below (-1: none)
+}
+
+// indexSummary computes the summary of helper h (one integer result), nil when nothing useful is known.
+func (w *World) indexSummary(h *ssa.Function) *idxSummary {
+	if w.idxSums == nil {
+		w.idxSums = map[*ssa.Function]*idxSummary{}
+	}
+	if s, ok := w.idxSums[h]; ok {
+		return s
+	}
+	w.idxSums[h] = nil // recursion guard
+	if bt, ok := h.Signature.Results().At(0).Type().Underlying().(*types.Basic); !ok || bt.Info()&types.IsInteger == 0 {
+		return nil
+	}
+	old := w.focus
+	defer w.restoreFocus(old)
+	bc := &boundsCtx{w: w, fn: h, root: h, facts: w.Facts(h)}
+	sum := &idxSummary{lo: posInf, hi: negInf, ltLenParam: -2}
+	n := 0
+	for _, ret := range liveReturns(h) {
+		n++
+		r := bc.rng(ret.Results[0], ret.Block())
+		if r.lo < sum.lo {
+			sum.lo = r.lo
+		}
+		if r.hi > sum.hi {
+			sum.hi = r.hi
+		}
+		if r.hi != posInf && r.hi < 0 {
+			continue // a negative sentinel is below every length
+		}
+		pi := -1
+		if r.ltLenOf != nil {
+			if p, isParam := stripConv(r.ltLenOf).(*ssa.Parameter); isParam && p.Parent() == h {
+				pi = paramIndex(p)
+			}
+		}
+		switch {
+		case pi < 0:
+			sum.ltLenParam = -1
+		case sum.ltLenParam == -2:
+			sum.ltLenParam = pi
+		case sum.ltLenParam != pi:
+			sum.ltLenParam = -1
+		}
+	}
+	if n == 0 {
+		return nil
+	}
+	if sum.ltLenParam == -2 {
+		sum.ltLenParam = -1
+	}
+	w.idxSums[h] = sum
+	return sum
+}
